@@ -17,7 +17,8 @@ Two ties between the theorems of `PyribsProofs/C09.lean` and the current source:
       (ii)  interrupted by pickle.dumps/loads of the scheduler at a random
             iteration (pycma excluded; a few cases resume in a fresh process)
                                               -> bit-identical continuation;
-      (iii) one seed changed                  -> the outputs differ (observed).
+      (iii) one seed changed -- for a spawned child seed: only the last child index, i.e.
+            the sibling of the same parent    -> the outputs differ (observed).
     Around every library call the states of `np.random` and `random` are compared
     before / after.
 
@@ -64,6 +65,7 @@ THEOREMS = [
     "Pyribs.C09.nonvacuous_same_lib",
     "Pyribs.C09.unseeded_site_interferes",
     "Pyribs.C09.spawn_check_sensitive",
+    "Pyribs.C09.entropy_only_collapses_siblings",
 ]
 TECHNIQUE = ("Lean 4 proof of non-interference over an abstract trace/program semantics of random sites + "
              "AST translator regenerating the site table on every run (decide over the generated table) + "
@@ -74,7 +76,8 @@ LEVEL_TEXT = ("proof (non-interference, pickle continuation: all traces / progra
 RULE = ("whole pipelines = archive kind (Grid, CVT x {kmeans, random, sobol, scrambled_sobol, halton, custom}, "
         "SlidingBoundaries, Proximity) x 1-3 emitters (EvolutionStrategy x 5 strategies x rankers, "
         "GradientArborescence, GradientOperator, Gaussian, IsoLine, GeneticAlgorithm) x {Scheduler, "
-        "BanditScheduler} x {int, SeedSequence} seeds, 2-8 iterations; each case is run 4 times (two global "
+        "BanditScheduler} x {int, root SeedSequence, spawned child / grandchild SeedSequence(x).spawn(n)[i]} seeds for "
+        "every component (built anew per run), 2-8 iterations; each case is run 4 times (two global "
         "states with different interleaved foreign draws, pickled at a random iteration, one seed changed); a "
         "case is non-trivial when it has >= 2 iterations, the two runs' foreign draws differ, and every run "
         "completed without a rejection; counted once per distinct pipeline description")
@@ -182,14 +185,32 @@ def _init_spies():
         _spy(getattr(E, n))
 
 
-def mkseed(v, ss):
-    return np.random.SeedSequence(v) if ss else v
+def seed_kind(spec):
+    """'int' | 'SeedSequence' (a root) | 'child' (obtained by spawn, possibly nested)."""
+    if spec.get("child"):
+        return "child"
+    return "SeedSequence" if spec.get("ss") else "int"
 
 
-def make_archive(spec, seed):
+def mkseed(v, spec, sibling=False):
+    """The seed object of a component, built anew for every run (spawn() mutates the SeedSequence it is
+    called on).  spec['child'] = [[n0, i0], [n1, i1], ...] means SeedSequence(v).spawn(n0)[i0].spawn(n1)[i1]...;
+    `sibling` moves the last index to the next sibling of the same parent (run (iii))."""
+    path = spec.get("child")
+    if path:
+        s = np.random.SeedSequence(v)
+        for d, (n, i) in enumerate(path):
+            if sibling and d == len(path) - 1:
+                i = (i + 1) % n
+            s = s.spawn(n)[i]
+        return s
+    return np.random.SeedSequence(v) if spec.get("ss") else v
+
+
+def make_archive(spec, seed, sibling=False):
     from ribs.archives import CVTArchive, GridArchive, ProximityArchive, SlidingBoundariesArchive
     rng2 = [(-2.0, 2.0), (-2.0, 2.0)]
-    s = mkseed(seed, spec.get("ss", False))
+    s = mkseed(seed, spec, sibling)
     kind = spec["kind"]
     if kind == "grid":
         kw = {}
@@ -213,9 +234,9 @@ def make_archive(spec, seed):
     raise ValueError(kind)
 
 
-def make_emitter(spec, archive, seed, k):
+def make_emitter(spec, archive, seed, k, sibling=False):
     import ribs.emitters as E
-    s = mkseed(seed, spec.get("ss", False))
+    s = mkseed(seed, spec, sibling)
     x0 = np.full(D, 0.1 * (k + 1))
     kind = spec["kind"]
     if kind == "es":
@@ -364,9 +385,13 @@ def run_pipeline(case, variant, stop_at=None):
     random.seed(g[1])
     aseed = case["archive"]["seed"]
     eseeds = [e["seed"] for e in case["emitters"]]
+    sib = -1  # component (0 = archive, k + 1 = emitter k) that gets the sibling child seed in run (iii)
     if variant == "s":
         ch = case.get("change", 0) % (len(eseeds) + 1)
-        if ch == 0:
+        spec = case["archive"] if ch == 0 else case["emitters"][ch - 1]
+        if spec.get("child"):
+            sib = ch  # same root, same path, only the last child index differs
+        elif ch == 0:
             aseed += 7919
         else:
             eseeds[ch - 1] += 7919
@@ -374,7 +399,7 @@ def run_pipeline(case, variant, stop_at=None):
         with warnings.catch_warnings():
             warnings.simplefilter("ignore")
             with obs.guard("archive constructor"):
-                archive = make_archive(case["archive"], aseed)
+                archive = make_archive(case["archive"], aseed, sibling=sib == 0)
             if hasattr(archive, "centroids"):
                 obs.put("centroids", archive.centroids)
             result = None
@@ -385,7 +410,7 @@ def run_pipeline(case, variant, stop_at=None):
             ems = []
             for k, es in enumerate(case["emitters"]):
                 with obs.guard(f"emitter {k} constructor"):
-                    ems.append(make_emitter(es, archive, eseeds[k], k))
+                    ems.append(make_emitter(es, archive, eseeds[k], k, sibling=sib == k + 1))
             with obs.guard("scheduler constructor"):
                 if case["sched"] == "bandit":
                     sched = BanditScheduler(archive, ems, case.get("num_active", 1), result_archive=result,
@@ -529,9 +554,15 @@ def first_diff(o1, o2, only_prefix=None):
 
 def describe(case):
     a = case["archive"]
-    ar = a["kind"] + (f"/{a['method']}" if a["kind"] == "cvt" else "") + ("/SeedSequence" if a.get("ss") else "/int")
+    def sk(spec):
+        k = seed_kind(spec)
+        if k == "child":
+            return "/child" + "".join(f"[{i}of{n}]" for n, i in spec["child"])
+        return "/" + k
+
+    ar = a["kind"] + (f"/{a['method']}" if a["kind"] == "cvt" else "") + sk(a)
     ems = ",".join(e["kind"] + (f"[{e['es']},{e['ranker']}]" if e["kind"] in ("es", "ga") else "")
-                   + ("/ss" if e.get("ss") else "") for e in case["emitters"])
+                   + (sk(e) if seed_kind(e) != "int" else "") for e in case["emitters"])
     return f"{ar} seed={a['seed']} | {ems} | {case['sched']} | {len(case['ops'])} it"
 
 
@@ -584,9 +615,15 @@ def run_case(case, ctx=None):
         return Failure("oracle", f"global random state disturbed by {os_.disturbed} (changed-seed run) :: {what}")
     ch = case.get("change", 0) % (len(case["emitters"]) + 1)
     verdict = seed_change_verdict(case, ch, oa, os_)
-    cnt("iii:" + verdict)
+    spec = case["archive"] if ch == 0 else case["emitters"][ch - 1]
+    cnt("iii:" + verdict + ("(sibling child seed)" if spec.get("child") else ""))
     if verdict == "same":
         who = "the archive" if ch == 0 else f"emitter {ch-1}"
+        if spec.get("child"):
+            n, i = spec["child"][-1]
+            return Failure("oracle", f"giving {who} the sibling seed (child {(i + 1) % n} instead of child {i} of the "
+                                     f"same spawn({n})) changed nothing it draws: different seeds, same stream "
+                                     f":: {what}")
         return Failure("oracle", f"changing the seed of {who} changed nothing it draws :: {what}")
     return None
 
@@ -687,14 +724,32 @@ def base_case(rng, n_iter):
     }
 
 
-def archive_spec(rng, kind=None, method=None, ss=None):
+SEED_KINDS = ["child", "int", "SeedSequence"]
+
+
+def seed_fields(rng, sk=None):
+    """seed / ss / child entries of a component spec; sk forces the seed kind."""
+    sk = sk or rng.choice(["int", "int", "SeedSequence", "child", "child"])
+    out = {"seed": rng.randrange(1, 10**6), "ss": sk != "int"}
+    if sk == "child":
+        path = []
+        for _ in range(rng.choice([1, 1, 1, 2])):  # children and grandchildren
+            n = rng.choice([2, 3, 5])
+            path.append([n, rng.randrange(n)])
+        out["child"] = path
+    return out
+
+
+def archive_spec(rng, kind=None, method=None, sk=None):
     kind = kind or rng.choice(["grid", "cvt", "sliding", "proximity"])
-    spec = {"kind": kind, "seed": rng.randrange(1, 10**6), "ss": rng.random() < 0.35 if ss is None else ss}
     if kind == "cvt":
-        spec["method"] = method or rng.choice(CVT_METHODS)
+        method = method or rng.choice(CVT_METHODS)
+        if method == "kmeans":
+            sk = "int"  # scikit-learn rejects a SeedSequence random_state loudly (DESIGN section 3)
+    spec = {"kind": kind, **seed_fields(rng, sk)}
+    if kind == "cvt":
+        spec["method"] = method
         spec["kd"] = rng.random() < 0.7
-        if spec["method"] == "kmeans":
-            spec["ss"] = False  # scikit-learn rejects a SeedSequence random_state loudly (DESIGN section 3)
     elif kind == "grid":
         spec["lr"] = rng.choice([None, None, 0.5])
     elif kind == "proximity":
@@ -702,9 +757,9 @@ def archive_spec(rng, kind=None, method=None, ss=None):
     return spec
 
 
-def simple_emitter(rng, kind=None):
+def simple_emitter(rng, kind=None, sk=None):
     kind = kind or rng.choice(["gauss", "iso", "gen"])
-    e = {"kind": kind, "seed": rng.randrange(1, 10**6), "ss": rng.random() < 0.3, "batch": rng.choice([2, 3, 5])}
+    e = {"kind": kind, **seed_fields(rng, sk), "batch": rng.choice([2, 3, 5])}
     if kind == "gen":
         e["op"] = rng.choice(["gaussian", "isoline"])
     if kind == "gauss":
@@ -712,8 +767,8 @@ def simple_emitter(rng, kind=None):
     return e
 
 
-def es_emitter(rng, archive_kind, es=None, ranker=None, kind="es"):
-    e = {"kind": kind, "seed": rng.randrange(1, 10**6), "ss": rng.random() < 0.35,
+def es_emitter(rng, archive_kind, es=None, ranker=None, kind="es", sk=None):
+    e = {"kind": kind, **seed_fields(rng, sk),
          "es": es or rng.choice(ES_NAMES), "batch": rng.choice([4, 6]),
          "sel": rng.choice(["filter", "mu"]), "restart": rng.choice(["no_improvement", "basic", 2])}
     e["ranker"] = "nov" if archive_kind == "proximity" else (ranker or rng.choice(RANKERS))
@@ -726,8 +781,8 @@ def es_emitter(rng, archive_kind, es=None, ranker=None, kind="es"):
     return e
 
 
-def gop_emitter(rng):
-    return {"kind": "gop", "seed": rng.randrange(1, 10**6), "ss": rng.random() < 0.3, "batch": rng.choice([2, 3]),
+def gop_emitter(rng, sk=None):
+    return {"kind": "gop", **seed_fields(rng, sk), "batch": rng.choice([2, 3]),
             "mg": rng.random() < 0.5, "norm": rng.random() < 0.5, "line": rng.choice([0.0, 0.2]),
             "op": rng.choice(["isotropic", "iso_line_dd"])}
 
@@ -752,8 +807,9 @@ class Cycle:
 def strata(ctx):
     """name -> generator; every generator enumerates its axis of the quantifier systematically first."""
     arch_combos = [("grid", None), ("sliding", None), ("proximity", None)] + [("cvt", m) for m in CVT_METHODS]
-    cyc_arch = Cycle(ctx, "arch", [(k, m, ss) for (k, m) in arch_combos for ss in (False, True)
-                                   if not (m == "kmeans" and ss)])
+    cyc_arch = Cycle(ctx, "arch", [(k, m, sk) for (k, m) in arch_combos for sk in SEED_KINDS
+                                   if not (m == "kmeans" and sk != "int")])
+    rot = {"es": 0, "dqd": 0}  # the seed kind of the stratum's main emitter rotates: child, int, SeedSequence, ...
     cyc_es = Cycle(ctx, "es", [(es, r) for es in ES_NAMES for r in RANKERS])
     cyc_dqd = Cycle(ctx, "dqd", [("ga", es, r) for es in ES_NAMES for r in ("imp", "2imp", "rd", "obj")]
                     + [("gop", None, None)] * 4)
@@ -763,10 +819,10 @@ def strata(ctx):
     L = 1 if ctx.quick else 3  # thorough: histories up to three times as long (restarts, remaps, resizes)
 
     def g_archives(rng):
-        kind, method, ss = cyc_arch.next(rng)
+        kind, method, sk = cyc_arch.next(rng)
         n_iter = rng.randint(2, 4 * L)
         c = base_case(rng, n_iter)
-        c["archive"] = archive_spec(rng, kind, method, ss)
+        c["archive"] = archive_spec(rng, kind, method, sk)
         c["emitters"] = [simple_emitter(rng) for _ in range(rng.randint(1, 2))]
         c["change"] = 0 if rng.random() < 0.6 else rng.randrange(4)
         c["sched"] = rng.choice(["plain", "plain", "bandit"])
@@ -778,10 +834,13 @@ def strata(ctx):
         n_iter = rng.randint(3, 6 * L)
         c = base_case(rng, n_iter)
         c["archive"] = archive_spec(rng, rng.choice(["grid", "grid", "cvt", "sliding", "proximity"]))
-        c["emitters"] = [es_emitter(rng, c["archive"]["kind"], es, ranker)]
+        sk = SEED_KINDS[rot["es"] % 3]
+        rot["es"] += 1
+        c["emitters"] = [es_emitter(rng, c["archive"]["kind"], es, ranker, sk=sk)]
         if rng.random() < 0.5:
             c["emitters"].append(es_emitter(rng, c["archive"]["kind"]))
-        c["change"] = rng.randrange(1, 4)
+        # run (iii): with a child seed the main emitter gets its sibling; otherwise any component's seed changes
+        c["change"] = 1 if sk == "child" else rng.randrange(1, 4)
         c["sched"] = rng.choice(["plain", "bandit"])
         c["num_active"] = 1
         return c
@@ -791,13 +850,15 @@ def strata(ctx):
         n_iter = rng.randint(3, 5 * L)
         c = base_case(rng, n_iter)
         c["archive"] = archive_spec(rng, rng.choice(["grid", "grid", "cvt"]))
+        sk = SEED_KINDS[rot["dqd"] % 3]
+        rot["dqd"] += 1
         if kind == "ga":
-            c["emitters"] = [es_emitter(rng, c["archive"]["kind"], es, ranker, kind="ga")]
+            c["emitters"] = [es_emitter(rng, c["archive"]["kind"], es, ranker, kind="ga", sk=sk)]
         else:
-            c["emitters"] = [gop_emitter(rng)]
+            c["emitters"] = [gop_emitter(rng, sk=sk)]
         if rng.random() < 0.4:
             c["emitters"].append(simple_emitter(rng))
-        c["change"] = rng.randrange(1, 4)
+        c["change"] = 1 if sk == "child" else rng.randrange(1, 4)
         return c
 
     def g_mixed(rng):
@@ -843,8 +904,12 @@ def minimise(case, fail):
             cands.append({"add_mode": "batch"})
         if any(e["kind"] != "gauss" for e in case["emitters"]) and len(case["emitters"]) == 1:
             cands.append({"emitters": [{"kind": "gauss", "seed": 5, "ss": False, "batch": 2}]})
-        if case["archive"].get("ss"):
-            cands.append({"archive": dict(case["archive"], ss=False)})
+        if case["archive"].get("ss") or case["archive"].get("child"):
+            cands.append({"archive": {k: v for k, v in dict(case["archive"], ss=False).items() if k != "child"}})
+        for i, e in enumerate(case["emitters"]):
+            if e.get("child") and len(e["child"]) > 1:  # a grandchild: try a plain child
+                cands.append({"emitters": case["emitters"][:i] + [dict(e, child=e["child"][-1:])]
+                              + case["emitters"][i + 1:]})
         for upd in cands:
             tries += 1
             c = dict(case)
@@ -865,6 +930,10 @@ def signature(case, fail):
         return (label, case["archive"]["kind"], case["archive"].get("method"))
     if "global random state disturbed" in label:
         return (label,)
+    if "changed nothing it draws" in label:  # run (iii): the kind of the component whose seed was changed
+        ch = case.get("change", 0) % (len(case["emitters"]) + 1)
+        who = case["archive"]["kind"] if ch == 0 else case["emitters"][ch - 1]["kind"]
+        return (re.sub(r"\(child.*?\)", "", label), who)
     return (label, tuple(sorted({e["kind"] + "/" + str(e.get("es", "")) for e in case["emitters"]})))
 
 
@@ -953,8 +1022,8 @@ def run(ctx):
                 for e in case["emitters"]:
                     ctx.count("emitter=" + e["kind"] + (f"/{e['es']}" if "es" in e else ""))
                 ctx.count("scheduler=" + case["sched"])
-                ctx.count("seedkind=" + ("SeedSequence" if case["archive"].get("ss") or any(
-                    e.get("ss") for e in case["emitters"]) else "int"))
+                for spec in [case["archive"]] + case["emitters"]:
+                    ctx.count("seedkind=" + seed_kind(spec))
             return None
 
         return runner
